@@ -90,6 +90,24 @@ MUTANTS = [
      "        first_instances = [set_of_instances.first]", "        first_instances = [set_of_instances.last]"),
     ('C16', 'only-first-chain', 'xtuml/meta.py',
      "        for first in first_instances:\n            inst = first", "        for first in first_instances[:1]:\n            inst = first"),
+    ('C19', 'integer-default-none', 'xtuml/meta.py',
+     "        elif uname == 'INTEGER':\n            return 0", "        elif uname == 'INTEGER':\n            return None"),
+    ('C19', 'real-default-int', 'xtuml/meta.py',
+     "            return 0.0", "            return 0"),
+    ('C19', 'positional-wins-over-keyword', 'xtuml/meta.py',
+     "            if name not in self.referential_attributes:\n                setattr(inst, name, value)\n            else:\n                referential_attributes[name] = value\n        \n        if not referential_attributes:",
+     "            if name in [a for a, _ in self.attributes[:len(args)]]:\n                continue\n            if name not in self.referential_attributes:\n                setattr(inst, name, value)\n            else:\n                referential_attributes[name] = value\n        \n        if not referential_attributes:"),
+    ('C19', 'peek-advances', 'xtuml/tools.py',
+     "        return self._current\n", "        return self.next()\n"),
+    ('C19', 'uuid-default-bypasses-generator', 'xtuml/meta.py',
+     "                return next(self.metamodel.id_generator)", "                import uuid\n                return uuid.uuid4().int"),
+    ('C19', 'integer-generator-from-zero', 'xtuml/tools.py',
+     "        self._current = self.readfunc()\n    \n    def peek", "        self._current = self.readfunc() - (1 if isinstance(self, IntegerGenerator) else 0)\n    \n    def peek"),
+    ('C19', 'unknown-type-defaults-none', 'xtuml/meta.py',
+     "            raise MetaException(\"Unknown type named '%s'\" % type_name)", "            return None"),
+    ('C19', 'positional-skips-referential-slot', 'xtuml/meta.py',
+     "        for attr, value in zip(self.attributes, args):",
+     "        for attr, value in zip([a for a in self.attributes if a[0] not in self.referential_attributes], args):"),
 ]
 
 
